@@ -991,6 +991,7 @@ func (handler *Handler) PreparedStatementResponseHandler(ctx context.Context, pa
 	// https://dev.mysql.com/doc/internals/en/com-stmt-prepare-response.html
 	if response.ParamsNum > 0 {
 		fieldTracker := NewPreparedStatementFieldTracker(handler, response.ColumnsNum)
+		fieldTracker.paramsNum = response.ParamsNum
 		handler.setQueryHandler(fieldTracker.ParamsTrackHandler)
 	}
 
